@@ -86,6 +86,40 @@ def compare(impl_path, model_path, events=True, limit=5):
             break
     return out, stats
 
+def roundtrip_analysis(impl_path):
+    """C12 on the implementation's stream: every `export` must validate; every `reimport` must
+    reproduce the stored state (the harness prints the full dump of the re-imported app)."""
+    state = set()
+    out = {'exports': 0, 'reimports': 0, 'export_rejects': [], 'reimport_diffs': []}
+    n = 0
+    for b in blocks(impl_path):
+        n += 1
+        kind = b['op'].split()[0] if b['op'] else ''
+        if kind == 'reimport' and rclass(b['R']) == 'accept':
+            new = {l[1:] for l in b['D'] if l.startswith('+')}
+            ign = lambda l: l.startswith('S sdkmint')
+            lost = sorted(l for l in state - new if not ign(l))
+            gained = sorted(l for l in new - state if not ign(l))
+            out['reimports'] += 1
+            if lost or gained:
+                out['reimport_diffs'].append({'index': n, 'lost': lost[:40], 'gained': gained[:40],
+                                              'sections': sorted({section_of('+' + l) for l in lost + gained})})
+            state = new
+            continue
+        for l in b['D']:
+            if l.startswith('+'):
+                state.add(l[1:])
+            elif l.startswith('-'):
+                state.discard(l[1:])
+        if kind == 'export':
+            out['exports'] += 1
+            if rclass(b['R']) != 'accept':
+                out['export_rejects'].append({'index': n, 'result': (b['R'] or '')[:200]})
+        if kind == 'reimport' and rclass(b['R']) != 'accept':
+            out['export_rejects'].append({'index': n, 'result': (b['R'] or '')[:200]})
+    return out
+
+
 if __name__ == '__main__':
     mism, stats = compare(sys.argv[1], sys.argv[2])
     print(json.dumps({'mismatches': mism, 'stats': {k: v for k, v in stats.items() if k != 'monitor_hits'}, 'monitor_hits': stats['monitor_hits'][:10]}, indent=1))
